@@ -30,6 +30,10 @@ ReadQueue(st) == CASE st.kind = "cursor" -> CurReadQueue(st)          \* Vec has
 Write(st, w) == CASE st.kind = "vec" -> R(OK, St("vec", Append(st.buf, w), Len(st.buf) + 1))
                   [] st.kind = "cursor" -> IF st.pos = Len(st.buf) THEN R(FULL, st) ELSE R(OK, St("cursor", SetAt(st.buf, st.pos + 1, w), st.pos + 1))
                   [] st.kind = "rev" -> IF st.pos = 0 THEN R(FULL, st) ELSE R(OK, St("rev", SetAt(st.buf, st.pos, w), st.pos - 1))
+\* WriteWords::extend_from_iter: documented as repeated `write` that stops at the first error (the words before it are written)
+RECURSIVE Extend(_, _)
+Extend(st, ws) == IF ws = <<>> THEN R(OK, st)
+                  ELSE LET w1 == Write(st, ws[1]) IN IF w1.res = OK THEN Extend(w1.st, Tail(ws)) ELSE R(FULL, st)
 Seek(st, p) == IF p > Len(st.buf) THEN R(REFUSED, st)
                ELSE IF st.kind = "vec" THEN R(OK, St("vec", SubSeq(st.buf, 1, p), p))      \* seeking a Vec truncates it
                ELSE R(OK, St(st.kind, st.buf, p))
@@ -67,6 +71,11 @@ WriteReadBack(st) == \A a, b \in {7, 8} :
     IN (w1.res = OK /\ w2.res = OK) =>
         /\ ReadStack(w2.st).res = b /\ ReadStack(ReadStack(w2.st).st).res = a /\ ReadStack(ReadStack(w2.st).st).st.pos = st.pos
         /\ (st.kind = "cursor" => LET s == Seek(w2.st, Pos(st)).st IN ReadQueue(s).res = a /\ ReadQueue(ReadQueue(s).st).res = b)
+\* a bulk write reports OutOfSpace exactly when it does not fit, and then the part that fits has been written
+ExtendContract(st) == \A n \in 0..3 :
+    LET ws == SubSeq(<<7, 8, 7>>, 1, n) r == Extend(st, ws)
+    IN /\ (r.res = OK) <=> (~Bounded(st) \/ n <= SpaceLeft(st))
+       /\ Bounded(st) => SpaceLeft(r.st) = (IF n <= SpaceLeft(st) THEN SpaceLeft(st) - n ELSE 0)
 SeekContract(st) ==
     /\ Seek(st, Pos(st)) = R(OK, st)
     /\ \A p \in 0..Len(st.buf) : Seek(st, p).res = OK /\ Pos(Seek(st, p).st) = p
